@@ -93,7 +93,7 @@ Accept(w2, mode) ==
       okSize == nadd < MaxAdds /\ base \in GrowBases
   IN /\ (CASE mode = "edit" -> okSize /\ b0 = {}
            [] mode = "mut" -> Cardinality(b0) <= 1
-           [] OTHER -> (okSize /\ b0 = {}) \/ Cardinality(b0) = 1) = TRUE
+           [] OTHER -> Cardinality(b0) <= 1) = TRUE
      /\ LET refs == AllRefs(sane)
             b == b0 \cup RefBroken(sane, refs)
         IN /\ (CASE mode = "edit" -> b = {}
